@@ -13,6 +13,7 @@ Require Import RV.Model.RwLockFile RV.Proofs.RwLockFileInv RV.Proofs.RwLockFileT
 Require Import RV.Model.LockDict RV.Proofs.LockDictInv RV.Proofs.LockDictThms.
 Require Import RV.Proofs.C11Examples.
 Require Import RV.Model.FlockInode RV.Proofs.FlockInodeProofs.
+Require Import RV.Lib.PyStr RV.Model.C11LockIdent RV.Proofs.C11LockIdentProofs.
 Open Scope nat_scope.
 
 (* ================================================================== C11_mutex: readers xor one writer *)
@@ -309,3 +310,49 @@ Theorem C11_witness_cachelock_open_fault :
   (exists th1, cthr_at open_fault_state 1 th1 /\ c_pc th1 = C_Done) /\ (cenabled open_fault_state 2 = false).
 Proof. exact cache_lock_open_fault_witness. Qed.
 Print Assumptions C11_witness_cachelock_open_fault.
+
+(* ================================================================== which file is flocked: deployments *)
+(* Model/RwLockFile.v has ONE kernel lock for all processes.  The processes of a deployment are server instances with
+   their own [storage] configurations serving one filesystem_folder; the file the storage lock flock()s
+   (StoragePartLock.__init__: os.path.join(filesystem_folder, ".Radicale.lock")) is a function of filesystem_folder
+   ONLY: filesystem_cache_folder, the use_cache_subfolder_* options, use_mtime_and_size_for_item_cache and folder_umask
+   do not enter.  Hence all instances of one store flock one file, and a flock table keyed by file grants a request of
+   any instance exactly when the single lock of RwLockFile.v grants it: the theorems above are theorems about the
+   deployment; in particular a writer of one instance excludes everybody of every instance.
+   Tie: obligation correspondence:lock-identity (the file really opened and flocked by the real Storage, for every
+   configuration of the generated matrix, = lock_path) and the "store" schedules (real Storage objects per instance). *)
+Theorem C11_lock_identity :
+  (forall c1 c2, sc_folder c1 = sc_folder c2 -> lock_path c1 = lock_path c2) /\
+  (forall f c1 c2 a1 a2 b1 b2 s1 s2 m1 m2 u1 u2,
+     lock_path (SConf f c1 a1 b1 s1 m1 u1) = lock_path (SConf f c2 a2 b2 s2 m2 u2)) /\
+  (forall d, same_store d -> forall p q, p < List.length d -> q < List.length d ->
+     lock_path (conf_of d p) = lock_path (conf_of d q)).
+Proof. exact (conj lock_path_folder_only (conj lock_path_ignores_options deployment_one_lock_file)). Qed.
+Print Assumptions C11_lock_identity.
+
+Theorem C11_deployment_single_lock :
+  (forall d, same_store d -> forall m p held, p < List.length d -> (forall e, In e held -> fst e < List.length d) ->
+     compat_id lock_path d m p held = compat_single m held) /\
+  (forall d, same_store d -> forall m p q mq held, p < List.length d -> q < List.length d ->
+     (forall e, In e held -> fst e < List.length d) -> In (q, mq) held -> (m = W \/ mq = W) ->
+     compat_id lock_path d m p held = false).
+Proof. exact (conj compat_id_single deployment_excludes). Qed.
+Print Assumptions C11_deployment_single_lock.
+
+(* not vacuous: shared data folder, two node-local cache folders, one node without cache folder *)
+Theorem C11_witness_deployment :
+  same_store ex_deployment /\
+  (forall p, p < 3 -> lock_path (conf_of ex_deployment p) = ex_lock_file) /\
+  compat_id lock_path ex_deployment R 1 [(0, W)] = false /\ compat_id lock_path ex_deployment W 2 [(0, R); (1, R)] = false /\
+  compat_id lock_path ex_deployment R 2 [(0, R); (1, R)] = true.
+Proof. exact (conj ex_deployment_same_store (conj ex_deployment_lock_file ex_deployment_excludes)). Qed.
+Print Assumptions C11_witness_deployment.
+
+(* ... and it depends on the lock file living in filesystem_folder: placed by filesystem_cache_folder, two instances of
+   one store flock different files and a writer of one is granted while a writer of the other holds *)
+Theorem C11_lock_by_cache_folder_refuted :
+  same_store ex_deployment /\
+  lock_path_by_cache (conf_of ex_deployment 0) <> lock_path_by_cache (conf_of ex_deployment 1) /\
+  compat_id lock_path_by_cache ex_deployment W 1 [(0, W)] = true /\ compat_single W [(0, W)] = false.
+Proof. exact lock_by_cache_refuted. Qed.
+Print Assumptions C11_lock_by_cache_folder_refuted.
